@@ -94,3 +94,9 @@ CLAIMS["C15"] = dict(
     text="Every request of the matrix (301 at protocol 3, 269 at 2 and 1; each protocol key x {null,true,0,-1,3,4,1.5,1e999,'','x','3',[],['x'],[1],{},{'A':1}}, set per option type, load/save with missing/directory/unwritable paths, non-JSON and non-object lines) in 3 prior states, and every sequence of length <=3 (quick) / 4 (thorough) over 17 representatives: the server function must return normally at EOF with exactly one JSON object line per input line, report or ignore bad parts as documented, leave the configuration equal to the twin history without the offending entry/request, and write nothing but protocol JSON to stdout; a subset is replayed on the real subprocess.",
     note="Either reading of 'as if the offending part had not been sent' (entry removed / request removed) is accepted.",
 )
+CLAIMS["C18"] = dict(
+    category="exploration",
+    technique="bounded exhaustive enumeration of compliant renderings of all entry-kind forests (depth <=3) and of all single-site, two-site and global whitespace manglings of each; real validate_file in check and replace mode iterated to a fixed point; both real parsers on mangled input and fixed point",
+    text="Every compliant rendering (all entry kinds incl. six config flavours with help/continuation/comment variants, named/unnamed choices, all source spellings, macros; under mainmenu and as sourced file) must be reported OK, left byte-identical by replace mode with no *.new left. Every single-site, every two-site (distance-bounded) and four global manglings from {indent +-1..4, indent 0, tab per unit, leading tab, trailing blanks/tab, tab in string} that leave parser 1's reading unchanged must reach within 5 replace passes a file that is reported OK, on which a further (really executed) pass is the identity, and which parser 1 and parser 2 read like the mangled input. Same for sdkconfig.rename files.",
+    note="Manglings that change what parser 1 reads (misleading formatting, exempted by the documentation) and inputs on which the two parsers already disagree (C04) are counted as skipped; help texts are compared modulo leading/trailing blanks of their lines.",
+)
